@@ -24,6 +24,11 @@ type svVotePre struct {
 	voteDL   int64
 	funds    *big.Int
 	proposer int
+	// configuration-update harness: proposal type (zero value = general), the
+	// update text of the proposal and the stages to choose from (6 = finalize-failed store)
+	ptype  governance.ProposalType
+	update string
+	stages []int
 }
 
 var svPowerTables = [][]int64{{1, 1, 1}, {1, 1, 2}, {33, 33, 34}, {49, 2, 49}}
@@ -56,7 +61,9 @@ func svPreVote(pre *svVotePre, kind int) func(e *svEnv) {
 		}
 		ctx.proposalMaster.Proposal.SetOptions(opts)
 
-		if svLean {
+		if pre.stages != nil {
+			pre.where = pre.stages[sv.Choice("prop.where", len(pre.stages))]
+		} else if svLean {
 			pre.where = []int{0, 2, 3}[sv.Choice("prop.where", 3)] // voting, passed, failed
 		} else if kind == 0 && quick {
 			pre.where = sv.Choice("prop.where", 2) // voting, funding
@@ -72,8 +79,12 @@ func svPreVote(pre *svVotePre, kind int) func(e *svEnv) {
 		if kind == 2 {
 			pre.proposer = sv.Choice("prop.proposer", e.n)
 		}
-		p := governance.NewProposal(svPropID, governance.ProposalTypeGeneral, "descr", "headline", svParty_(pre.proposer).Addr,
-			10, balance.NewAmountFromInt(10), pre.voteDL, pre.pass, "")
+		ptype := governance.ProposalTypeGeneral
+		if pre.ptype != 0 {
+			ptype = pre.ptype
+		}
+		p := governance.NewProposal(svPropID, ptype, "descr", "headline", svParty_(pre.proposer).Addr,
+			10, balance.NewAmountFromInt(10), pre.voteDL, pre.pass, pre.update)
 		state := governance.ProposalStateActive
 		switch pre.where {
 		case 0:
@@ -86,6 +97,8 @@ func svPreVote(pre *svVotePre, kind int) func(e *svEnv) {
 			p.Status, p.Outcome, state = governance.ProposalStatusCompleted, governance.ProposalOutcomeCompletedYes, governance.ProposalStateFinalized
 		case 5:
 			p.Status, p.Outcome, state = governance.ProposalStatusCompleted, governance.ProposalOutcomeCancelled, governance.ProposalStateFailed
+		case 6:
+			p.Status, p.Outcome, state = governance.ProposalStatusCompleted, governance.ProposalOutcomeCompletedYes, governance.ProposalStateFinalizeFailed
 		}
 		if err := pm.Proposal.WithPrefixType(state).Set(p); err != nil {
 			sv.Unreachable("proposal setup")
@@ -127,7 +140,7 @@ func svPreVote(pre *svVotePre, kind int) func(e *svEnv) {
 		}
 		// representation invariant: a proposal sits in the passed / failed(voted no)
 		// store only with a recorded tally that says so
-		if t := svTally(pre, pre.opinions); (pre.where == 2 && t != governance.VOTE_RESULT_PASSED) || (pre.where == 3 && t != governance.VOTE_RESULT_FAILED) ||
+		if t := svTally(pre, pre.opinions); ((pre.where == 2 || pre.where == 6) && t != governance.VOTE_RESULT_PASSED) || (pre.where == 3 && t != governance.VOTE_RESULT_FAILED) ||
 			(pre.where == 0 && t != governance.VOTE_RESULT_TBD) {
 			sv.Assume(false)
 		}
